@@ -225,7 +225,8 @@ def gen_dataset_case(rng, confirm, i):
     ext = rng.choice([".parquet", ".parquet", ".parq"])
     # directory and file NAMES are data: names of partition columns, partition values and files that start with '_' or '.',
     # hold spaces, '%', non-ASCII letters must neither vanish from a listing nor change the rows
-    key0 = rng.choice(["k", "k", "k", "_grp", ".dot", "my col", "ü", "k%41"])
+    # (the second level is called n: "xn", "n n", "in" hold it as a tail - related partition column names)
+    key0 = rng.choice(["k", "k", "k", "_grp", ".dot", "my col", "ü", "k%41", "xn", "n n", "in", "nn"])
     odd_file = rng.choice(["", "", "", "_", ".", "_tmp.", "%20"])
     for j in range(k):
         n = rng.choice([0, 1, 2, 3, 5, 8])
